@@ -103,6 +103,11 @@ func (c *FnCtx) specEnvAt(st *State, pos token.Pos) *SpecEnv {
 						if v.Pkg() != nil && v.Parent() == v.Pkg().Scope() {
 							return c.globalVar(s, v)
 						}
+						// a local that is in scope here but has no value on this path (declared after an early
+						// return, or in a branch not taken): any value will do - obligations must hold for all of them
+						if !isOld && c.sortOf(v.Type()) != SNone {
+							return c.havocVal(s, v.Type(), "unset_"+v.Name())
+						}
 					}
 					if k, ok := o.(*types.Const); ok {
 						return c.constVal(k.Val(), k.Type())
@@ -386,8 +391,34 @@ func (c *FnCtx) specField(env *SpecEnv, base *Val, name string) *Val {
 		}
 		return c.fieldOfVal(env.st, base, f.Name(), f.Type())
 	}
+	// promoted field of an embedded struct
+	for i := 0; i < stt.NumFields(); i++ {
+		f := stt.Field(i)
+		if !f.Embedded() {
+			continue
+		}
+		if est, _ := structOf(f.Type()); est != nil && hasFieldDeep(est, name, 4) {
+			inner := c.specField(env, base, f.Name())
+			return c.specField(env, inner, name)
+		}
+	}
 	c.specErr("contract does not resolve: field %s of %s", name, base.Typ)
 	return &Val{T: c.fresh("specbad", SInt), S: SInt}
+}
+
+func hasFieldDeep(st *types.Struct, name string, depth int) bool {
+	for i := 0; i < st.NumFields(); i++ {
+		f := st.Field(i)
+		if f.Name() == name {
+			return true
+		}
+		if f.Embedded() && depth > 0 {
+			if est, _ := structOf(f.Type()); est != nil && hasFieldDeep(est, name, depth-1) {
+				return true
+			}
+		}
+	}
+	return false
 }
 
 // loadFieldQuiet reads a field without adding type facts to the state (spec context).
